@@ -70,29 +70,33 @@ def typespec_chunk(type_id, entry_count):
     return struct.pack("<HHIBBHI", 0x0202, 16, 16 + 4 * entry_count, type_id, 0, 0, entry_count) + b"\0\0\0\0" * entry_count
 
 
-def package_chunk(pkg_id, name, types, values):
-    """types: list of dict(name=str, entry_count=int, configs=[dict(config=..., entries={idx: entry}, form=...)])"""
+def package_chunk(pkg_id, name, types, values, type_id_offset=0, hdr=288):
+    """types: list of dict(name=str, entry_count=int, configs=[dict(config=..., entries={idx: entry}, form=...)])
+    type_id_offset: ResTable_package.typeIdOffset (feature splits): the k-th type string names type id k + 1 + offset;
+    hdr: 288 (with typeIdOffset) or 284 (the older header without it; offset must be 0)"""
     tpool, kpool = Pool(False), Pool(True)
     for t in types:
         tpool.add(t["name"])
     body = b""
-    for ti, t in enumerate(types, 1):
+    assert hdr in (284, 288) and (hdr == 288 or type_id_offset == 0)
+    for ti, t in enumerate(types, 1 + type_id_offset):
         body += typespec_chunk(ti, t["entry_count"])
         for c in t["configs"]:
             body += type_chunk(ti, t["entry_count"], c["config"], c["entries"], kpool, values, c.get("form", "plain"))
     tchunk, kchunk = tpool.chunk(), kpool.chunk()
-    hdr = 288
     nm = name.encode("utf-16-le")[:254]
     nm = nm + b"\0" * (256 - len(nm))
     size = hdr + len(tchunk) + len(kchunk) + len(body)
-    out = struct.pack("<HHII", 0x0200, hdr, size, pkg_id) + nm + struct.pack("<IIIII", hdr, len(tpool.strings), hdr + len(tchunk), len(kpool.strings), 0)
+    out = struct.pack("<HHII", 0x0200, hdr, size, pkg_id) + nm + struct.pack("<IIII", hdr, len(tpool.strings), hdr + len(tchunk), len(kpool.strings))
+    if hdr == 288:
+        out += struct.pack("<I", type_id_offset)
     return out + tchunk + kchunk + body
 
 
 def table(packages):
-    """packages: list of (id, name, types)"""
+    """packages: list of (id, name, types) or (id, name, types, dict(type_id_offset=, hdr=))"""
     values = Pool(True)
-    pk = [package_chunk(i, n, t, values) for i, n, t in packages]     # fills the value pool
+    pk = [package_chunk(p[0], p[1], p[2], values, **(p[3] if len(p) > 3 else {})) for p in packages]     # fills the value pool
     vchunk = values.chunk()
     size = 12 + len(vchunk) + sum(len(p) for p in pk)
     return struct.pack("<HHII", 0x0002, 12, size, len(pk)) + vchunk + b"".join(pk)
